@@ -9,6 +9,41 @@ Lemma sol_wait_fragment_repeat cfg s se dl from bytes d ctl fn obj resp :
   sol_wait_fragment cfg s se dl from None bytes d = (SoNewRequest, [OInfo ISolNewRequest]).
 Proof. intros Et Ecl. unfold sol_wait_fragment. rewrite Et, Ecl. reflexivity. Qed.
 
+
+Definition next_fid (s : ostate) : N := (s_frame_id s + 1) mod 4294967296.
+Definition rx_state (s : ostate) : ostate := upd_frame_id s (next_fid s).
+
+Lemma on_rx_idle cfg s from bc bytes d :
+  s_control s = CIdle ->
+  on_rx cfg s from bc bytes d =
+  idle_loop 8 cfg (upd_pending (rx_state s) (Some (from, bc, bytes, d, next_fid s))).
+Proof. intros Hc. unfold on_rx, rx_state, next_fid. cbv zeta. psimpl. rewrite Hc. reflexivity. Qed.
+
+Lemma on_rx_unsol cfg s from bc bytes d resp is_null retries deadline :
+  s_control s = CUnsolWait resp is_null retries deadline ->
+  on_rx cfg s from bc bytes d =
+  let '(s1, res, o) := unsol_wait_fragment cfg (rx_state s) resp from bc bytes d (next_fid s) in
+  match res with
+  | None => (s1, o)
+  | Some r =>
+      let '(s2, ns, o2) := end_unsol cfg s1 is_null r in
+      let '(s3, o3) := resume_at cfg (St3 ns) s2 in
+      (s3, o ++ o2 ++ o3)
+  end.
+Proof. intros Hc. unfold on_rx, rx_state, next_fid. cbv zeta. psimpl. rewrite Hc. reflexivity. Qed.
+
+Lemma on_rx_sol_new cfg s from bc bytes d se deadline r o :
+  s_control s = CSolWait se deadline r ->
+  sol_wait_fragment cfg (rx_state s) se deadline from bc bytes d = (SoNewRequest, o) ->
+  on_rx cfg s from bc bytes d =
+  let '(s2, o2) := resume_at cfg (stage_of r)
+                     (upd_pending (upd_control (rx_state s) CIdle) (Some (from, bc, bytes, d, next_fid s))) in
+  (s2, o ++ [ODb DbReset] ++ o2).
+Proof.
+  intros Hc Hw. unfold on_rx. cbv zeta. fold (next_fid s). fold (rx_state s).
+  replace (s_control (rx_state s)) with (s_control s) by reflexivity. rewrite Hc, Hw. reflexivity.
+Qed.
+
 (* the observations of the step that receives the repeat, by the control state it arrives in *)
 Definition repeat_prefix (c : control) (fn seq : N) (pre : list oobs) : Prop :=
   match c with
@@ -34,37 +69,38 @@ Proof.
   destruct (advance 64 cfg s1 (s_now s1 + settle_ms)) as [s2 o2] eqn:E2. inv_pair H.
   pose proof (on_rx_pres _ _ _ _ _ _ _ _ _ E1 Hinv0) as [_ [Hp1 _]].
   apply advance_bg in E2 as [_ S2]; auto.
-  unfold on_rx in E1. cbv zeta in E1.
-  set (fid := (s_frame_id (upd_answers s ans) + 1) mod 4294967296) in *.
-  set (sA := upd_frame_id (upd_answers s ans) fid) in *.
-  assert (HlA : s_last sA = s_last s) by reflexivity.
-  assert (HbA : s_sol_buf sA = s_sol_buf s) by reflexivity.
-  assert (HcA : s_control sA = s_control s) by reflexivity.
-  assert (HdA : s_deferred sA = s_deferred s) by reflexivity.
-  clearbody sA. rewrite HcA in E1.
+  remember (upd_answers s ans) as s0 eqn:Es0.
+  assert (Hl0 : s_last (rx_state s0) = s_last s) by (subst s0; reflexivity).
+  assert (Hb0 : s_sol_buf (rx_state s0) = s_sol_buf s) by (subst s0; reflexivity).
+  assert (Hc0 : s_control s0 = s_control s) by (subst s0; reflexivity).
+  assert (Hd0 : s_deferred (rx_state s0) = s_deferred s) by (subst s0; reflexivity).
+  assert (EclA : forall sx, s_last sx = s_last (rx_state s0) -> classify sx None bytes ctl fn obj = FtRepeatNonRead resp).
+  { intros sx X. rewrite <- Ecl. apply classify_last. congruence. }
+  clear Es0 Hinv0.
   destruct (s_control s) as [|se dl r|resp0 is_null retries dl] eqn:Ec; cbn [repeat_prefix].
-  - rewrite idle_loop_8_eq in E1. unfold resume_at in E1. change 32%nat with (S 31) in E1.
-    eapply idle_run_repeat_St1 with (ctl := ctl) (fn := fn) (obj := obj) (resp := resp) in E1
-      as [_ [post [-> B]]]; [| reflexivity | exact Et | rewrite <- Ecl; apply classify_last; exact HlA].
-    rewrite (echo_of_buf s) by exact HbA.
+  - rewrite on_rx_idle in E1 by exact Hc0.
+    rewrite idle_loop_8_eq in E1. unfold resume_at in E1.
+    apply (idle_run_repeat_St1 cfg 31 _ from bytes d (next_fid s0) ctl fn obj resp) in E1
+      as [_ [post [Eo B]]]; [| reflexivity | exact Et | apply EclA; reflexivity].
+    subst o1. rewrite (echo_of_buf s) by exact Hb0.
     exists [OInfo (IIdleRequest fn (ctl_seq ctl))], (post ++ o2).
     split; [rewrite <- !app_assoc; reflexivity|]. split; [fb | reflexivity].
-  - rewrite (sol_wait_fragment_repeat cfg sA se dl from bytes d ctl fn obj resp) in E1;
-      [| exact Et | rewrite <- Ecl; apply classify_last; exact HlA].
+  - rewrite (on_rx_sol_new cfg s0 from None bytes d se dl r [OInfo ISolNewRequest]) in E1;
+      [| exact Hc0 | apply (sol_wait_fragment_repeat _ _ _ _ _ _ _ ctl fn obj resp); [exact Et | apply EclA; reflexivity]].
     match type of E1 with context [resume_at cfg ?st ?sx] => destruct (resume_at cfg st sx) as [s3 o3] eqn:E3 end.
-    inv_pair E1. unfold resume_at in E3. change 32%nat with (S (S (S (S (S 27))))) in E3.
-    eapply idle_run_repeat with (ctl := ctl) (fn := fn) (obj := obj) (resp := resp) in E3
-      as [_ [u [i [post [-> [Su [Hi B]]]]]]];
-      [| destruct r; cbn [stage_of]; eauto | reflexivity | reflexivity | | exact Et
-       | rewrite <- Ecl; apply classify_last; exact HlA].
-    + rewrite (echo_of_buf s) by exact HbA.
+    inv_pair E1. unfold resume_at in E3.
+    apply (idle_run_repeat cfg 27 _ _ from bytes d (next_fid s0) ctl fn obj resp) in E3
+      as [_ [u [i [post [Eo [Su [Hi B]]]]]]];
+      [| destruct r; cbn [stage_of]; eauto | reflexivity | reflexivity | | exact Et | apply EclA; reflexivity].
+    + subst o3. rewrite (echo_of_buf s) by exact Hb0.
       exists ([OInfo ISolNewRequest; ODb DbReset] ++ u ++ i), (post ++ o2).
       split; [cbn [app]; rewrite <- !app_assoc; reflexivity|]. split; [fb|].
       exists u, i. auto.
-    + psimpl. rewrite HdA. destruct Hinv as [_ Hr]. apply rest_ok_deferred_none; [exact Hr|].
-      intros ? ? ? ? X. rewrite Ec in X. discriminate.
-  - rewrite (unsol_wait_fragment_repeat cfg sA resp0 from bytes d fid ctl fn obj resp) in E1;
-      [| exact Et | rewrite <- Ecl; apply classify_last; exact HlA].
-    inv_pair E1. rewrite (echo_of_buf s) by exact HbA.
+    + change (s_deferred (rx_state s0) = None). rewrite Hd0. destruct Hinv as [_ Hr].
+      apply rest_ok_deferred_none; [exact Hr|]. intros ? ? ? ? X. rewrite Ec in X. discriminate.
+  - rewrite (on_rx_unsol cfg s0 from None bytes d resp0 is_null retries dl) in E1 by exact Hc0.
+    rewrite (unsol_wait_fragment_repeat cfg (rx_state s0) resp0 from bytes d (next_fid s0) ctl fn obj resp) in E1;
+      [| exact Et | apply EclA; reflexivity].
+    inv_pair E1. rewrite (echo_of_buf s) by exact Hb0.
     exists [], o2. auto.
 Qed.
